@@ -775,7 +775,7 @@ pub fn check(args: &[String]) -> i32 {
 fn expected_probes(prop: &str) -> Vec<&'static str> {
     match prop {
         "C01" => vec!["hostile_input_accepted_as_packet", "corrupt", "coalesce"],
-        "C02" => vec!["multi_element_result", "packets_then_error", "stopped_at_disallowed_version", "empty_result_disallowed_first", "empty_buffer_delivered", "one_byte_buffer_delivered"],
+        "C02" => vec!["multi_element_result", "packets_then_error", "stopped_at_disallowed_version", "empty_result_disallowed_first", "empty_buffer_delivered", "one_byte_buffer_delivered", "v9_flowset_length_below_4_accepted", "ipfix_length_below_16_accepted", "v9_count_exceeds_flowsets"],
         "C04" => vec!["records_compared", "options_template", "v9_options_data", "template_and_data_in_same_packet", "data_set_with_padding", "several_template_records_in_set"],
         "C05" => vec!["records_compared", "options_template", "enterprise_field", "varlen_3_byte_length_form", "ipfix_options_data", "zero_length_field_template", "data_set_with_padding"],
         "C06" => vec!["cache_changing_delivery", "redefine", "kind_switch", "collector_restart", "exporter_restart", "split_vs_coalesced_compared", "heal_delivery", "disallowed_version_delivery", "dup", "reorder_delay", "drop"],
